@@ -180,7 +180,7 @@ def split_trace(path, parts):
 
 def tv_once(ctx, spec, cfg, trace, prop, name, timeout=1800, extra_env=None, coverage=False):
     d = tlc_dir(ctx, name)
-    env = dict(os.environ, TRACE=trace, PROP=prop, JAVA_TOOL_OPTIONS='-Dtlc2.tool.queue.IStateQueue=StateDeque')
+    env = dict(os.environ, TRACE=trace, PROP=prop, JAVA_TOOL_OPTIONS='-Xss256m -Dtlc2.tool.queue.IStateQueue=StateDeque')
     if extra_env:
         env.update(extra_env)
     cmd = ['timeout', str(timeout), 'tlc', '-workers', '1', '-metadir', f'{d}/md', '-config', f'{cfg}.cfg']
@@ -216,7 +216,7 @@ def tv_once(ctx, spec, cfg, trace, prop, name, timeout=1800, extra_env=None, cov
 def tv_cases(ctx, spec, trace, name, timeout=1800):
     """validate a file of independent cases (one per line); returns (number of lines, [bad 1-based line numbers])"""
     d = tlc_dir(ctx, name)
-    env = dict(os.environ, TRACE=trace, JAVA_TOOL_OPTIONS='-Dtlc2.tool.queue.IStateQueue=StateDeque')
+    env = dict(os.environ, TRACE=trace, JAVA_TOOL_OPTIONS='-Xss256m -Dtlc2.tool.queue.IStateQueue=StateDeque')
     r = sh(['timeout', str(timeout), 'tlc', '-workers', '1', '-metadir', f'{d}/md', '-config', f'{spec}.cfg', f'{spec}.tla'], cwd=d, env=env)
     open(f'{d}/tlc.out', 'w').write(r.stdout)
     shutil.rmtree(f'{d}/md', ignore_errors=True)
